@@ -672,7 +672,13 @@ int main(int argc, char **argv)
     vs_init(rank, rank < nexp ? expected[rank] : 0, tq_ms / 1000.0, logpath);
     parsec_context_t *parsec = parsec_init(nthreads, &pargc, &pargv);
     if( NULL == parsec ) { fprintf(stderr, "parsec_init failed\n"); return 2; }
-    parsec_data_collection_t *D = vs_dc_create("D", rank, world, NTD, TS, ntab ? rank_table : NULL, NULL, 1);
+    /* several virtual processes (runtime_vpmap=rr:...): tasks are spread over them through vpid_of of the placement collection */
+    extern int parsec_vpmap_get_nb_vp(void);
+    int nvp = parsec_vpmap_get_nb_vp(); if( nvp < 1 ) nvp = 1;
+    int *vp_table = (int*)malloc((NTD > 0 ? NTD : 1) * sizeof(int));
+    for( int k = 0; k < NTD; k++ ) vp_table[k] = k % nvp;
+    vs_note("NVP %d", nvp);
+    parsec_data_collection_t *D = vs_dc_create("D", rank, world, NTD, TS, ntab ? rank_table : NULL, vp_table, nvp);
     parsec_data_collection_t *E = vs_dc_create("E", rank, world, NTE, TS, netab ? erank_table : NULL, NULL, 1);
     for( int k = 0; k < NTD; k++ ) vs_tile_set(vs_dc_tile(D, k), TS, (uint32_t)(1000 + 7 * k));
     for( int k = 0; k < NTE; k++ ) vs_tile_set(vs_dc_tile(E, k), TS, (uint32_t)(500000 + 3 * k));
